@@ -773,6 +773,8 @@ type c01Ctx struct {
 	staleMigrate map[string]bool // groups (and their ancestors) touched by a MigratePod whose cached pod object was stale
 	staleAll     bool            // such a MigratePod ran concurrently with re-parents: any group may be on its path
 	tainted      map[string]bool // concurrent unit: groups the deficit of a detach may have reached by the end of the round
+	schedCopy    map[string]bool // same-pod stream: groups (and ancestors) of a Reserve/Unreserve that raced with a resize of the pod
+	schedAll     bool
 }
 
 const c01SigStaleMigrate = "C01/migrate/pod-updated-since-cached"
@@ -780,9 +782,13 @@ const c01SigStaleMigrate = "C01/migrate/pod-updated-since-cached"
 // classify attributes one mismatch (reported != recomputed) to the facts in ctx. detach: the
 // known re-parent/delete defect can only make an old ancestor's request/child-request too SMALL;
 // stale: the group lies on the path of a MigratePod that booked a stale cached pod object.
-func (e *c01Env) classify(ctx *c01Ctx, group, field string, less bool) (detach, stale bool) {
+func (e *c01Env) classify(ctx *c01Ctx, group, field string, less bool) (detach, stale, sched bool) {
 	if ctx == nil {
-		return false, false
+		return false, false, false
+	}
+	switch field {
+	case "used", "self-used", "np-used", "self-np-used":
+		sched = ctx.schedAll || ctx.schedCopy[group]
 	}
 	if less && (field == "request" || field == "child-request") {
 		for _, d := range ctx.detach {
@@ -794,7 +800,7 @@ func (e *c01Env) classify(ctx *c01Ctx, group, field string, less bool) (detach, 
 			detach = true
 		}
 	}
-	return detach, ctx.staleAll || ctx.staleMigrate[group]
+	return detach, ctx.staleAll || ctx.staleMigrate[group], sched
 }
 
 func (e *c01Env) summaries(gqm *GroupQuotaManager) map[string]*QuotaInfoSummary {
@@ -826,7 +832,7 @@ func (e *c01Env) check(ctx *c01Ctx) {
 	}
 	// mismatches explained by a fact in ctx are collected; an unexplained one fails at once and a
 	// mismatch explained only by the stale-migrate fact wins over one explained by the detach fact
-	staleMsg, detachMsg := "", ""
+	staleMsg, detachMsg, schedMsg := "", "", ""
 	for _, n := range names {
 		s := sums[n]
 		if s == nil {
@@ -854,10 +860,14 @@ func (e *c01Env) check(ctx *c01Ctx) {
 				if cmp := q.Cmp(w); cmp != 0 {
 					msg := fmt.Sprintf("%s: group %s %s[%s] = %s, recomputed from the surviving pods and quotas: %s\n  reported %s: %s\n  expected %s: %s",
 						where, n, f.name, c01DimNames[d], q.String(), w.String(), f.name, c01RL(got), f.name, c01VecStr(want, m.nd))
-					det, stale := e.classify(ctx, n, f.name, cmp < 0)
+					det, stale, sched := e.classify(ctx, n, f.name, cmp < 0)
 					switch {
-					case !det && !stale:
+					case !det && !stale && !sched:
 						c.Fail("C01/"+f.name+"/mismatch", "%s", msg)
+					case sched:
+						if schedMsg == "" {
+							schedMsg = msg
+						}
 					case stale && !det:
 						if staleMsg == "" {
 							staleMsg = msg
@@ -928,7 +938,9 @@ func (e *c01Env) check(ctx *c01Ctx) {
 		}
 	}
 	c.Count("summary_comparisons", 1)
-	if staleMsg != "" {
+	if schedMsg != "" {
+		e.knownDefect(c01SigSchedCopy, schedMsg)
+	} else if staleMsg != "" {
 		e.knownDefect(c01SigStaleMigrate, staleMsg)
 	} else if detachMsg != "" {
 		e.knownDefect(c01SigDetach, detachMsg)
